@@ -267,7 +267,9 @@ def _validate_shard(args):
     e = {"TRACE": str(shard_path)}
     if env:
         e.update(env)
-    r = tlc_run(spec, cfg, workers=1, env=e, timeout=3600, xmx="3g", dfs=True,
+    # a runaway result in the code under test can make single events tens of MB long: give TLC the heap to read them
+    big = os.path.getsize(shard_path) > 60 * 1024 * 1024
+    r = tlc_run(spec, cfg, workers=1, env=e, timeout=3600 if not big else 7200, xmx="3g" if not big else "20g", dfs=True,
                 tag="%s-s%d-%d" % (spec, idx, os.getpid()))
     out = r["out"]
     end = _END.search(out)
@@ -309,7 +311,8 @@ def validate_trace(spec, trace_path, shards=8, cfg=None, env=None, min_shard_eve
             f.write("\n".join(lines[cuts[k]:cuts[k + 1]]) + "\n")
         jobs.append((spec, cfg, sp, k, env))
     res = []
-    with cf.ThreadPoolExecutor(max_workers=len(jobs)) as ex:
+    nbig = sum(1 for j in jobs if os.path.getsize(j[2]) > 60 * 1024 * 1024)
+    with cf.ThreadPoolExecutor(max_workers=len(jobs) if nbig == 0 else 2) as ex:
         res = list(ex.map(_validate_shard, jobs))
     mism = []
     tot = {"events": 0, "generated": 0, "distinct": 0}
